@@ -38,6 +38,9 @@ type Ob struct {
 	// replay against the real code and return a description of the reproduced violation, or nil
 	// if the counterexample did not reproduce.
 	OnFail func(r smt.Result) *Violation
+	// OnWitness is called with the model when a Sat-expecting obligation is answered sat: the witness is
+	// run on the real code; a non-nil result is a reproduced violation.
+	OnWitness func(r smt.Result) *Violation
 	// Second opinion solver (thorough tier): must agree.
 	Diff string
 }
@@ -296,6 +299,16 @@ func (r *Run) dischargeBatch(obs []*Ob) {
 		switch {
 		case res.Status == ob.Expect:
 			or.status = "discharged"
+			if ob.OnWitness != nil && res.Status == smt.Sat {
+				if v := ob.OnWitness(res); v != nil {
+					r.replays++
+					if v.Site == "" {
+						v.Site = ob.Site
+					}
+					or.viol = v
+					or.status = "violation"
+				}
+			}
 		case res.Status == smt.Sat || res.Status == smt.Unsat:
 			if ob.Guard {
 				or.status = "inconclusive"
@@ -318,7 +331,9 @@ func (r *Run) dischargeBatch(obs []*Ob) {
 			if v != nil && strings.HasPrefix(v.Site, "benign:") {
 				// the disagreement was examined on the real code and found not to be one (reason in the note)
 				or.status = "discharged"
-				r.Note("%s: %s", ob.Name, v.What)
+				if v.What != "" {
+					r.Note("%s: %s", ob.Name, v.What)
+				}
 				if ob.Site != "" {
 					delete(r.siteViol, ob.Site)
 				}
